@@ -65,6 +65,11 @@ pub fn exact_calls_thread() -> u64 {
 
 /// Does the wall `w` (0..5) of a reflective box pass through generator i (within tolerance)?
 pub fn wall_through_generator(st: &State, i: usize, w: u8, t: &Tol) -> bool {
+    // the structural selector of R9 applies to 3D cells only; in 1D/2D the defect shows on few inputs, which are
+    // listed explicitly (known_findings/*_R9_lowdim.txt), so that every other wall face is judged
+    if st.dim < 3 {
+        return false;
+    }
     let ax = (w / 2) as usize;
     if st.periodic && ax < st.dim {
         return false;
@@ -153,7 +158,10 @@ pub struct FaceTol {
 
 pub fn face_tol(t: &Tol, of: &OFace, pos: f64) -> FaceTol {
     let area = pos * of.perimeter + 1e-12 * of.area.abs() + 1e-13 * t.l.powi(t.dim as i32 - 1);
-    let centroid = 4. * pos * (1. + of.perimeter * of.perimeter * 0.5 / of.area.abs().max(1e-300));
+    // the face centroid is a quotient (first moment / area) of sums of signed triangles that span from the projection of
+    // the generator to the face: their rounding error is absolute, about u L^d, whatever the size of the face, so the
+    // centroid of a tiny face carries an error of u L^d / area
+    let centroid = 4. * pos * (1. + of.perimeter * of.perimeter * 0.5 / of.area.abs().max(1e-300)) + 1e-13 * t.l.powi(t.dim as i32) / of.area.abs().max(1e-300);
     FaceTol { area, centroid, compare_centroid: of.area > 100. * area, negligible: of.area <= t.neg_area + area }
 }
 
